@@ -208,7 +208,26 @@ func (s *ldapService) SetChannel(c pushers.Channel) {
 	s.c = c
 }
 
+// Handle serves one connection. Login state, the pending StartTLS and the
+// connection itself belong to one session, so every connection is served by
+// its own copy of the service with its own request handlers.
 func (s *ldapService) Handle(ctx context.Context, conn net.Conn) error {
+	session := &ldapService{
+		Server: Server{
+			Handlers:    make([]requestHandler, 0, 4),
+			Credentials: s.Credentials,
+			tlsConfig:   s.tlsConfig,
+			DSE:         s.DSE,
+		},
+		c: s.c,
+	}
+
+	session.setHandlers()
+
+	return session.serve(ctx, conn)
+}
+
+func (s *ldapService) serve(ctx context.Context, conn net.Conn) error {
 	s.wantTLS = false
 
 	s.login = "" // set the anonymous authstate
